@@ -49,6 +49,31 @@ class Group:
         self.backend = backend      # None = SAT (minisat2); 'cvc5' | 'z3' = SMT2 back end
 
 
+class StaticGroup(Group):
+    """supporting static fact decided on the clang AST (not by CBMC): fn(self) -> list of (name, ok, description)"""
+
+    def __init__(self, name, fn, note=''):
+        Group.__init__(self, name, harness='', entry='', note=note)
+        self.fn = fn
+
+    def run_static(self):
+        res = GroupResult(self)
+        t0 = time.time()
+        try:
+            for (nm, ok, desc) in self.fn(self):
+                res.obligations.append({'name': nm, 'status': 'SUCCESS' if ok else 'FAILURE', 'desc': desc, 'file': '', 'line': '',
+                                        'function': '', 'cls': 'static'})
+        except X.ExtractionError as e:
+            res.reason = 'extraction: %s' % e
+            res.wall = time.time() - t0
+            return res
+        res.failed = [o for o in res.obligations if o['status'] != 'SUCCESS']
+        res.status = 'FAILED' if res.failed else ('PROVED' if res.obligations else 'UNDECIDED')
+        res.cmds = ['clang++ -Xclang -ast-dump=json (reference scan)']
+        res.wall = time.time() - t0
+        return res
+
+
 def _limits():
     resource.setrlimit(resource.RLIMIT_AS, (MEM_BYTES, MEM_BYTES))
 
@@ -72,6 +97,8 @@ def spec_of(item):
             d['sampler'] = True
         elif isinstance(extra, str) and extra.startswith('alias='):
             d['alias'] = extra[6:]
+        elif isinstance(extra, str) and extra.startswith('decl_file='):
+            d['decl_file'] = extra[10:]
     return d
 
 
@@ -82,7 +109,7 @@ def extract_cached(spec):
     key = json.dumps(spec, sort_keys=True)
     if key not in _extract_memo:
         cls = X.SamplerExtractor if spec.get('sampler') else X.FunctionExtractor
-        fx = cls(spec['file'], spec['function'], spec.get('alias'))
+        fx = cls(spec['file'], spec['function'], spec.get('alias'), spec.get('decl_file'))
         _extract_memo[key] = fx.extract()
     return _extract_memo[key]
 
@@ -160,6 +187,8 @@ def build_group(g, workdir):
 
 
 def run_group(g, trace=False, workroot=None):
+    if hasattr(g, 'run_static'):
+        return g.run_static()
     res = GroupResult(g)
     t0 = time.time()
     workdir = os.path.join(workroot or BUILD, re.sub(r'[^A-Za-z0-9_.=-]', '_', g.name))
@@ -240,8 +269,9 @@ def run_group(g, trace=False, workroot=None):
         o['cls'] = classify(o['name'], o['desc'])
         if trace and 'trace' in r:
             o['trace'] = r['trace']
-        if CANARY in o['desc'] and o['function'] == g.entry:
-            canary_seen = True
+        if CANARY in o['desc']:
+            if o['function'] == g.entry:
+                canary_seen = True
             if o['status'] != 'FAILURE':
                 res.reason = 'vacuity guard: the end of harness %s is unreachable (canary %s)' % (g.entry, o['status'])
                 res.obligations.append(o)
